@@ -140,7 +140,12 @@ async fn run(
             .prepare(
                 "SELECT site_id FROM crsql_site_id WHERE ordinal > 0
                         UNION
-                    SELECT distinct site_id FROM __corro_seq_bookkeeping",
+                    SELECT distinct site_id FROM __corro_seq_bookkeeping
+                        UNION
+                    -- actors known only through cleared / non-impactful versions and gaps
+                    SELECT distinct actor_id FROM __corro_bookkeeping_gaps
+                        UNION
+                    SELECT site_id FROM crsql_db_versions",
             )?
             .query_map([], |row| row.get(0))
             .and_then(|rows| rows.collect::<rusqlite::Result<Vec<_>>>())?;
